@@ -152,7 +152,16 @@ func PlanSession(s Src, o SessionOpts) *SessionPlan {
 				call.WithChans = true
 				ns := s.Choose("w.nsig", 3)
 				for k := 0; k < ns; k++ {
-					call.Signals = append(call.Signals, Sig{ID: "poke", Data: map[string]any{"k": int64(s.Choose("w.sigk", 1000))}})
+					data := map[string]any{"k": int64(s.Choose("w.sigk", 1000))}
+					switch s.Choose("w.sigmeta", 4) {
+					case 1:
+						data["meta"] = map[string]any{"tag": "t"}
+					case 2:
+						data["meta"] = map[string]any{"wait": "1m5s"}
+					case 3:
+						data["meta"] = map[string]any{"tag": strings.Repeat("long", 10)} // too long: rejected
+					}
+					call.Signals = append(call.Signals, Sig{ID: "poke", Data: data})
 				}
 				p.Features["signals"] = true
 			} else if o.Signals && chance(s, "w.chans", 1, 4) {
